@@ -5,8 +5,8 @@ _WD = ["--watchdog", "120"]
 PROP = dict(
     harnesses={"c03_fd_events": dict(sources=["harness/c03_fd_events.cpp"])},
     legs=[
-        # 14 hand-written minimal histories x {epoll, select}
-        dict(name="directed", harness="c03_fd_events", flavour="asan", mode="directed", quick=28, thorough=28, scalable=False,
+        # 14 hand-written minimal histories x {epoll, select} + 3 differential close-while-enabled / number re-use histories
+        dict(name="directed", harness="c03_fd_events", flavour="asan", mode="directed", quick=31, thorough=31, scalable=False,
              args=_WD, case_timeout=120),
         # case 2k = scenario k on epoll, 2k+1 = the same scenario on select; scenario class k%4 limits the destructive actions
         dict(name="safety", harness="c03_fd_events", flavour="asan", mode="safety", quick=300000, thorough=9000000,
